@@ -132,6 +132,15 @@ def rule_c11_r2(model: Model) -> RuleResult:
     for mname in ('try_convert', 'collect_errors', 'into_data'):
         f = model.func(f'{UNION}.{mname}')
         r.analysed.add(f.qualname)
+        cfg0 = cfg_of(model, f)
+        nz0 = Normalizer(model, f, cfg0)
+        loops0 = [n for n in cfg0.live_nodes() if n.kind == 'iter' and 'self.converters' in nz0.expr(n.ast.iter, n)]  # type: ignore[attr-defined]
+        if len(loops0) > 1:
+            r.instances += 1
+            r.fail(f.qualname, f"{len(loops0)} loops over the members", f.loc(loops0[0].ast),
+                   "the members are searched more than once, by different tests: a member found by the first search (e.g. isinstance "
+                   "against the declared class, which a subclass instance also passes) pre-empts the member the probing would select")
+            continue
         cfg, nz, lp = _member_loop(model, f)
         r.instances += 1
         it_form = nz.expr(lp.ast.iter, lp)  # type: ignore[attr-defined]
